@@ -23,6 +23,29 @@ Facts observe_all(World& w)
     return all;
 }
 
+void op_tt_foreign(World& w, const Op& op)
+{
+    auto tt = w.lib2->track();
+    int64_t id = w.tracks.at((size_t)op.i.at(0)).id();
+    auto qc = tt.get_quick_cues(id);
+    qc.default_main_cue = 1111.0;
+    qc.adjusted_main_cue = 2222.0;
+    qc.is_main_cue_adjusted = true;
+    tt.set_quick_cues(id, qc);
+    auto bd = tt.get_beat_data(id);
+    bd.default_beat_grid = bd.adjusted_beat_grid;
+    for (auto& mk : bd.default_beat_grid) mk.sample_offset += 333.0;
+    tt.set_beat_data(id, bd);
+    auto td = tt.get_track_data(id);
+    td.average_loudness_mid = td.average_loudness_low * 0.5;
+    td.average_loudness_high = td.average_loudness_low * 0.25;
+    tt.set_track_data(id, td);
+}
+struct RegisterForeign
+{
+    RegisterForeign() { World::register_op("tt_foreign", op_tt_foreign); }
+} register_foreign;
+
 struct Dom
 {
     struct Model
@@ -34,8 +57,12 @@ struct Dom
     static void init(Model&, World&) {}
     static void visit(World&, Model&, const std::string&, Agg&) {}
     static std::string key_extra(const Model&) { return ""; }
-    static std::vector<std::string> seeds(eng::engine_schema)
+    static std::vector<std::string> seeds(eng::engine_schema sch)
     {
+        // third seed, 2.x: a track whose performance data was written by someone else (through the public table API, as Engine itself
+        // would leave it): the redundant copies inside the blobs differ from each other (default vs adjusted main cue, default vs
+        // adjusted beat grid, three loudness bands). Getter and snapshot must still read the same copy, and no setter may disturb it.
+        if (is_v2(sch)) return {"create_track(0);create_track(2)", "create_track(3);create_track(0)", "@1:create_track(2);create_track(3);tt_foreign(0)"};
         return {"create_track(0);create_track(2)", "create_track(3);create_track(0)"};
     }
     // group restriction for the deep tier: VX_C06_GROUP selects the fields that share a row or blob
@@ -247,7 +274,7 @@ int run(const Options& o)
     c["evaluations"] = st.transitions;
     c["distinct_nontrivial"] = total.ndistinct("nontrivial");
     c["rule"] =
-        "Explicit-state BFS on the real library. Two tracks (seed A: minimal + fully analysed; seed B: all eight cue and loop slots used + minimal). Alphabet in every state, for each track: "
+        "Explicit-state BFS on the real library. Two tracks (seed A: minimal + fully analysed; seed B: all eight cue and loop slots used + minimal; on 2.x a third seed, entering one level late, whose first track carries foreign performance data written through the table API: default and adjusted main cue, default and adjusted beat grid and the three loudness bands all differ). Alphabet in every state, for each track: "
         "every setter of the 25 fields with its value alphabet (absent, the 0 / empty sentinel, ordinary, edge: " + std::to_string(nops) + " setter calls per track in all) and set_hot_cue_at / set_loop_at at every "
         "index 0..7 with {absent, entry, entry with 255-byte label}. After every transition every getter and snapshot() of BOTH tracks is read: the set field's getter must return one of the "
         "texts the normalisation table allows, each getter must equal the corresponding snapshot field, list getters must equal the slot getters, and no fact outside the set field's own "
